@@ -26,6 +26,11 @@ CHECKS = {
             "All histories of add/update(rename, change ids, switch own settings)/remove/DHCP-flip up to depth 3 (quick: 2 names, 8 colliding identifiers incl. nested/unmasked/offset CIDRs, 2 IPs, MAC, ClientID) or 4 (thorough: 3 names, 16 identifiers); after every transition accept/reject, unchanged-on-reject, index-map consistency and every lookup path are compared with the reference.",
             "between equally specific stored prefixes either owner is accepted; identifiers outside the pool and deeper histories are not covered; runs in-process with 16 worker goroutines (Storage instances are independent).",
             "DESIGN.md §4 C04", "E1-BFS"),
+    "C05": ("model_checking",
+            "stateless preemption-bounded exhaustive exploration of interleavings under a cooperative scheduler hooked into sync/atomic (E2), plus a free-running race-detector pass over the same exhaustively enumerated scenario matrix (E4)",
+            "Scenario matrix: 4 request bodies x 31 admin/background bodies, every background body x every admin body (thorough: + request x background x admin triples), on a full assembly wired as in package home (server, filter with file lists, client storage, query log, statistics on bbolt). E2 owns every Mutex/RWMutex(writer preference)/WaitGroup/Once/atomic operation of the rewritten AGH packages and bbolt and explores all schedules with <=1 (quick) / <=2 (thorough) preemptions: no panic, deadlock or livelock, well-formed response, operations succeed. E4 runs every scenario in both start orders with staggered starts under -race.",
+            "data races are decided by the race detector's happens-before analysis of observed free runs (order-dependent), not by schedule enumeration; goroutines the code spawns itself are replaced by explicit bodies; DHCP lease operations and restart-type DNS settings are not in the matrix.",
+            "DESIGN.md §2.3, §2.4, §4 C05", "E2+E4"),
     "C08": ("exploration",
             "bounded exhaustive enumeration of (ignore lists x anonymisation x client kind x flags x request) through the real pipeline with the real query log and statistics wired as in package home; every storage and reporting surface read after each request",
             "13 ignore-list pairs x anonymisation off/on/switched on by API x 5 persistent-client kinds x ignore flags x ANY-refusal, each x 43 requests (name spellings, IPv4/IPv6/4-in-6 sources, with/without ClientID); after every request the memory buffer (API), the flushed file, the API over the file and /control/stats are inspected and cleared. Restart scenarios check that the API hides entries recorded earlier whose name/client is ignored now, including several ClientID clients behind one address.",
